@@ -63,3 +63,56 @@ CHECKS['C05'] = dict(
         U('inpkg', 'TestVerifC05_SlabSequence', q(16000, 8), q(320000, 16, cap=1800), pkg='algo'),
         U('inpkg', 'TestVerifC05_SchemeHistory', q(8000, 4), q(160000, 8), pkg='algo'),
     ])
+
+CHECKS['C01'] = dict(
+    title='Filtering is exact: the lines shown are the lines satisfying the query',
+    rule='query AST (1-4 AND groups x 1-3 OR alternatives x 6 term kinds x negation, bodies over an alphabet colliding with the lines) rendered with the documented operators '
+         '(or a raw string with --no-extended) x --exact/-i/+i/--literal/--algo/--scheme/--tiebreak/--no-sort/--tac x 0-40 lines seeded from the term bodies; '
+         'oracle = independent evaluator of the documented grammar; printed multiset must equal the expected one in both directions. '
+         'non-trivial = (>=2 terms or a non-fuzzy/negated term) and both the match set and its complement are non-empty',
+    assumptions=[
+        'operator characters occur only in interior positions of a term body; queries contain no TAB/newline/backslash (undocumented readings are left to robustness checks)',
+        'the rendered query is re-parsed by the oracle\'s own parser and must give back the AST (generator guard)',
+    ],
+    units=[
+        U('lib', 'TestVerifC01_Regress', q(), q()),
+        U('lib', 'TestVerifC01_LibFilter', q(48000, 16), q(960000, 16, cap=1800)),
+    ])
+
+CHECKS['C04'] = dict(
+    title='Results are the matched lines, each once, in rank order',
+    rule='lists of 0..450 lines (0, 1, exactly one, several chunks) drawn from a pool of <=8-10 lines so that score and tiebreak collisions are the rule; '
+         'oracle = stable global sort by (independent documented score, trimmed length, input index) resp. input order for --no-sort / empty / negation-only queries; '
+         'non-trivial = >=2 results, a score tie, and more than one chunk',
+    assumptions=['library-level order oracle restricted to queries whose score is defined by the documented model alone (positive fuzzy(v2)/prefix/suffix/equal terms) and tiebreaks length/index; '
+                 'the other criteria are exercised by the in-package merger check and by the C05 sub-list relation'],
+    units=[
+        U('lib', 'TestVerifC04_Regress', q(), q()),
+        U('lib', 'TestVerifC04_LibOrder', q(6400, 16), q(128000, 16, cap=1800)),
+        U('lib', 'TestVerifC04_LibInputOrder', q(4800, 16), q(96000, 16, cap=1800)),
+    ])
+
+CHECKS['C05']['units'] += [
+    U('lib', 'TestVerifC05_LibSublist', q(4800, 16), q(96000, 16, cap=1800)),
+    U('lib', 'TestVerifC05_LibRunHistory', q(3200, 16), q(64000, 16, cap=1800)),
+]
+
+CHECKS['C06'] = dict(
+    title='Every input record becomes exactly one item, in order, unaltered',
+    rule='(library) n in {0..350} numbered lines x --header-lines x --tail x query x six ways of running the filter (streaming, sorted, --tac, --sync); '
+         'non-trivial = header/tail active, something to print, and more lines than the tail',
+    assumptions=[],
+    units=[
+        U('lib', 'TestVerifC0607_Regress', q(), q()),
+        U('lib', 'TestVerifC06_LibHeaderTail', q(4800, 16), q(96000, 16, cap=1800)),
+    ])
+
+CHECKS['C07'] = dict(
+    title='Output is the original line, framed and exit-coded as documented',
+    rule='(library) lines over an alphabet with blanks/delimiters x --with-nth range lists x AWK/literal/regex delimiters x --print-query x six ways of running the filter; '
+         'oracle = field model for the searched text, original line for the printed text, exit status 0/1; non-trivial = the display text differs from the line and something is printed',
+    assumptions=[],
+    units=[
+        U('lib', 'TestVerifC0607_Regress', q(), q()),
+        U('lib', 'TestVerifC07_LibOriginalLine', q(9600, 16), q(192000, 16, cap=1800)),
+    ])
